@@ -1,5 +1,6 @@
 import Driver.Region
 import Driver.Glyph
+import Driver.Matrix
 /-! `pixdrv <domain>`: reads requests on stdin, writes one reply line per request. -/
 
 partial def loop (h : IO.FS.Stream) (out : IO.FS.Stream) (f : String → String) : IO Unit := do
@@ -14,4 +15,5 @@ def main (args : List String) : IO UInt32 := do
   match args with
   | ["region"] => loop stdin stdout Driver.Region.handle; return 0
   | ["glyph"] => loop stdin stdout Driver.Glyph.handle; return 0
+  | ["matrix"] => loop stdin stdout Driver.Matrix.handle; return 0
   | _ => IO.eprintln "usage: pixdrv <domain>"; return 2
